@@ -10,7 +10,7 @@ import json, os, re, signal, subprocess, sys, time
 from multiprocessing import Process
 
 LANES = "/tmp/sreg"
-OUT = "/verif/seeded/REGRESSION.jsonl"
+OUT = os.environ.get("SEEDREGRESS_OUT", "/verif/seeded/REGRESSION.jsonl")
 # changes delivered for one property that lie outside its subject (DESIGN section 9): checked where they belong
 ELSEWHERE = {"C04-i": "C20", "C04-j": "C20", "C06-k": "C09"}
 
